@@ -35,6 +35,10 @@ CLAIMS = {
             "symbolic run: validity = conjunction, failure count = sum, tested count, rule order (stable, shortest first), the set of "
             "(rule, failing path) and the report text (a str naming every failing path) equal the reference for every value of the "
             "symbolic leaves/thresholds", "3 C06"),
+    "C07": ("absence of exceptions from Schema.validate/Rule.test decided for every value and type of the symbolic leaves and "
+            "arguments: one schema per callable (all 32 on value, 17 under length and under dtype) over fan-out paths through a "
+            "document with leaves of every type, plus cast schemas over keys of every type, list indices, fan-out, nesting and "
+            "the empty path with convertible and unconvertible cast strings", "3 C07"),
     "C14": ("equality laws (reflexive/symmetric/transitive, rebuilt and commuted copies equal) and 'equal implies same "
             "behaviour' decided for every value of the differing atom (key, index, argument, label) and of the probe "
             "document's leaves, per term kind", "3 C14"),
